@@ -402,4 +402,20 @@ example :
         [(B "Package", B "new"), (B "X-Custom", B "keep"), (B "Y", B "z"), (B "Size", B "3")]⟩ := by
   decide +kernel
 
+/-- A field that the paragraph carries decodes to what the paragraph says, whatever the
+    target held before (a struct decoded into more than once, e.g. one struct in a Decoder
+    loop): the previous content of the field is not an input of the result. -/
+theorem C09_decode_value_fresh (n : Nat) (k : Kind) (delim strip : Bytes) (old : Val) (value : Bytes) :
+    decodeValue n k delim strip old value = decodeValue n k delim strip .zero value := by
+  cases n with
+  | zero => rfl
+  | succ n => cases k <;> simp [decodeValue]
+
+/-- the scenario of the repaired defect: a list field decoded into a target that already
+    holds a list gives what a fresh target gets (the theorem has no hypotheses) -/
+example :
+    decodeValue 16 (.slice .str) [] [] (.list [.str (Bytes.ofString "stale")]) (Bytes.ofString "a b")
+      = decodeValue 16 (.slice .str) [] [] .zero (Bytes.ofString "a b") :=
+  C09_decode_value_fresh _ _ _ _ _ _
+
 end GoDebian.Props.C09
